@@ -67,6 +67,37 @@ def first_round_can_be_unterminated(P):
     return any(act[0] == 'none' and len(act) > 2 and act[2] for cls, cz, act, wf in rows)
 
 
+def unterminated_is_reported(P, rep):
+    class Quiet:
+        def __getattr__(self, name):
+            return lambda *a, **k: None
+    table, _, _ = rules_C08.scan_table(P, Quiet())
+    silent = []
+    for mode in ("EndIf", "EndChain", "EndMacro"):
+        rows = [r for r in table.get(mode, []) if "<eof>" in r[0]]
+        if not rows:
+            silent.append("%s (no end-of-text row)" % mode)
+        elif not all(act[0] == 'none' and len(act) > 2 and act[2] for cls, cz, act, wf in rows):
+            silent.append(mode)
+    rep.ob("C15.unterminated|scanner", not silent,
+           "running out of text in search of .endif / .endmacro is told apart from the plain end of the text (modes EndIf, EndChain, EndMacro)" if not silent else
+           "the scanner reaches the end of the text in mode %s and answers like at the plain end of a file: after an .if 0 or a .macro that is never closed (or whose closing line is misspelt) the rest of the file is dropped without a word" % ", ".join(silent))
+    # the line loop fails when it is told so
+    fn = "parser::parse_iter"
+    if silent or fn not in P.body:
+        return
+    M = absint.Machine(P, max_depth=3, opaque={"parser::skip", "document::document::line", "directive::Directive::parse"}, loop_limit=1)
+    paths = M.explore(fn, M.arg_unknowns(fn))
+    told = []
+    for p in paths:
+        for sy, dd in p.state.doms.items():
+            if isinstance(sy, tuple) and sy[0] == 's' and re.match(r"^skip\(.*\)(@\d+)?\.2$", sy[1]) and sx.dom_size(dd) == 1 and sx.dom_min(dd) == 1:
+                told.append(p)
+    ok = bool(told) and all(p.exit == "Err" for p in told)
+    rep.ob("C15.unterminated|error", ok, "the line loop fails (with the line that opened the construct) when the scanner ran out of text" if ok else
+           "the line loop goes on or ends quietly although the scanner ran out of text in search of a closing line (%s)" % sorted({p.exit for p in told}))
+
+
 def codepoint_line_args(text):
     """first argument of every  CodePoint::CodePoint(<line>, <num>)  occurring in a description string"""
     out = []
@@ -296,6 +327,9 @@ def run(tier):
                "CodePoint line numbers are %s" % sorted(pts)[:3])
     else:
         rep.unprovable("C15.line-number|anchor", "parse_iter not found")
+    # a conditional or macro definition that is never closed is a fault of the line that opened it: the scanner says so when it runs out
+    # of text in search of the closing line, and the line loop turns that into an error
+    unterminated_is_reported(P, rep)
     pk = "parser::parse"
     if pk in P.body:
         calls = [MU.callee_names(t)[1] for _, t, _, _ in P.call_sites(pk)]
